@@ -1111,8 +1111,24 @@ pub fn gen_zoo(rng: &mut Rng, n: usize) -> String {
             s.push('\n');
         }
     }
+    // round r: templates whose substitutions are concatenations of constants only, or plain `+` expressions
+    // (what is left untouched depends on the configuration)
+    if side.chance(1, 2) {
+        for _ in 0..side.range(1, 3) {
+            s.push_str(*side.pick(ZOO_CONSTANT_TEMPLATES));
+            s.push('\n');
+        }
+    }
     s
 }
+
+pub const ZOO_CONSTANT_TEMPLATES: &[&str] = &[
+    r####"function z60(a, b) { return `${'a' + 'b' + 'c'}` + `${1 + 2 + 3}${'x' + ('y' + 'z')}`; }"####,
+    r####"function z61(a, b) { return `${'a' + 'b'}${'c' + 'd' + 'e'}tail` + `${a}${'k' + 'l' + 'm'}`; }"####,
+    r####"function z62(a, b) { return `${b + a}` + `${a + b}${b + a}` + `pre${a + 'x'}`; }"####,
+    r####"function z63(a, b) { return `${-1 + +1 + ~1}` + `${typeof 'a' + 'b' + 'c'}` + `${'a' + 'b' + 1n}`; }"####,
+    r####"function z64(a, b) { return `${('a' + 'b') + ('c' + 'd')}${null + undefined + ''}` + `${`${'p' + 'q' + 'r'}`}`; }"####,
+];
 
 pub const ZOO_LITERAL_BASES: &[&str] = &[
     "function q1(a, x, y) { const r = 'abc'.foo?.(y).concat(x); return r; }",
